@@ -19,13 +19,18 @@ type Event struct {
 }
 
 type Recorder struct {
+	// schema objects already built, by case node: a node that occurs at several positions of the
+	// case tree is ONE zog schema object placed at several positions (C17 sharing)
+	Built  map[*Node]z.ZogSchema
 	Events []Event
 	Order  map[string][]string // struct path -> keys in visit order
 	OrderPaths []string
 	CtxSeen []any
 }
 
-func NewRecorder() *Recorder { return &Recorder{Order: map[string][]string{}} }
+func NewRecorder() *Recorder {
+	return &Recorder{Order: map[string][]string{}, Built: map[*Node]z.ZogSchema{}}
+}
 
 func ctxPath(ctx z.Ctx) string {
 	if sc, ok := ctx.(*p.SchemaCtx); ok && sc.Path != nil {
@@ -202,6 +207,15 @@ func buildNum[T int | int32 | int64 | float64 | float32](s *z.NumberSchema[T], n
 
 // Build constructs the real zog schema for a node through the public builder API.
 func Build(n *Node, rec *Recorder) z.ZogSchema {
+	if s, ok := rec.Built[n]; ok {
+		return s
+	}
+	s := build1(n, rec)
+	rec.Built[n] = s
+	return s
+}
+
+func build1(n *Node, rec *Recorder) z.ZogSchema {
 	switch n.Kind {
 	case "prim":
 		switch n.PK {
@@ -430,4 +444,84 @@ func Build(n *Node, rec *Recorder) z.ZogSchema {
 		}, t.Opts.zopts()...)
 	}
 	panic(fmt.Sprintf("Build: bad node %s/%s", n.Kind, n.PK))
+}
+
+
+// ---- exported pieces used by the builder stream ----
+
+func (o TOpts) Zopts() []z.TestOption { return o.zopts() }
+
+func FnTestFunc(n *Node, t TestSpec, rec *Recorder) z.BoolTFunc { return fnTest(n, t, rec) }
+func PostFunc(n *Node, ps PostSpec, rec *Recorder) z.PostTransform { return postFn(n, ps, rec) }
+
+// ApplyStringTest adds one negatable / plain built-in string test; ns is the pending Not() receiver or nil.
+func ApplyStringTest(s *z.StringSchema[string], ns z.NotStringSchema[string], t TestSpec) {
+	o := t.Opts.zopts()
+	if t.Name == "min" {
+		s.Min(int(t.N), o...)
+		return
+	}
+	if t.Name == "max" {
+		s.Max(int(t.N), o...)
+		return
+	}
+	if ns == nil {
+		ns = s
+	}
+	switch t.Name {
+	case "len":
+		ns.Len(int(t.N), o...)
+	case "prefix":
+		ns.HasPrefix(t.S, o...)
+	case "suffix":
+		ns.HasSuffix(t.S, o...)
+	case "contains":
+		ns.Contains(t.S, o...)
+	case "upper":
+		ns.ContainsUpper(o...)
+	case "digit":
+		ns.ContainsDigit(o...)
+	case "special":
+		ns.ContainsSpecial(o...)
+	case "uuid":
+		ns.UUID(o...)
+	case "email":
+		ns.Email(o...)
+	case "oneof":
+		xs := make([]string, len(t.Args))
+		for i, a := range t.Args {
+			xs[i] = a.S
+		}
+		ns.OneOf(xs, o...)
+	default:
+		panic("ApplyStringTest " + t.Name)
+	}
+}
+
+func ApplyIntTest(s *z.NumberSchema[int], t TestSpec) {
+	o := t.Opts.zopts()
+	switch t.Name {
+	case "cmp":
+		a := int(t.Arg.I)
+		switch t.Op {
+		case "eq":
+			s.EQ(a, o...)
+		case "lt":
+			s.LT(a, o...)
+		case "lte":
+			s.LTE(a, o...)
+		case "gt":
+			s.GT(a, o...)
+		case "gte":
+			s.GTE(a, o...)
+		}
+	case "oneof":
+		xs := make([]int, len(t.Args))
+		for i, a := range t.Args {
+			xs[i] = int(a.I)
+		}
+		s.OneOf(xs, o...)
+	default:
+		panic("ApplyIntTest " + t.Name)
+	}
 }
